@@ -32,6 +32,9 @@ func init() {
 			{ID: "C16.R10", Floor: 2, Run: typeArgPassedThrough, Text: "TypeID / ResourceTypeID hand the reflect.Type they were given to the registry unchanged (= C20.R12)"},
 			{ID: "C16.R11", Floor: 2, Run: narrowCounters, Text: "narrow counters fit their limit (= C09.R11): per-chunk use counts of the id maps and the lock-bit counters cannot wrap for the id limit of the build"},
 			{ID: "C16.R12", Floor: 1, Run: layoutCountFromCount, Text: "the layout count covers every registered id: wherever a size is rounded up by layoutChunkSize its first argument is the registry's Count() itself"},
+			{ID: "C16.R13", Floor: 1, Run: rootTablesNotEnumerated, Text: "World.archetypes is not used to enumerate tables (= C17.R10): it holds only the tables of nodes without a relation"},
+			{ID: "C16.R14", Floor: 1, Run: typeListedForItsID, Text: "a column's type is the registry's type for its id (= C14.R8)"},
+			{ID: "C16.R15", Floor: 4, Run: registryKeyIsParam, Text: "the registry is keyed by the type as given: lookups, insertions and forwards of a reflect.Type parameter in package ecs use the parameter itself"},
 		},
 	})
 }
